@@ -117,7 +117,7 @@ PROPS["C04"] = {
              "mode 'faults' additionally fails one SQL statement inside a third of the ops (io/busy/badconn/full/ctx, fail-stop): the op may fail, then the model does not move; it may never succeed with another effect. "
              "mode 'bulk': 101..2500 (quick) / ..10001 (thorough) relationships inserted in bulk, listed with page sizes 0 / 1000 / 5000 / n-1 / n / n+1 / 100000, deleted by query and in bulk, compared with the model after every step (sizes are spread around every boundary an implementation might batch at; none is copied from the code). "
              "non-trivial = history applied >=3 writes; distinct = hash of the whole history with responses."),
-    "probes": ["writes_applied", "invalid_ops", "probe_multi_page_list", "probe_check_allowed", "probe_over_1000_rows", "bulk_delete_by_query", "bulk_delete_explicit"],
+    "probes": ["writes_applied", "invalid_ops", "probe_multi_page_list", "probe_check_allowed", "probe_entry_with_both_subject_kinds", "probe_over_1000_rows", "bulk_delete_by_query", "bulk_delete_explicit"],
     "real": REAL_S, "stub": STUB_S,
     "fault_kinds": {"io": "statement returns an I/O error", "busy": "'database is locked' (pop retries)", "badconn": "driver.ErrBadConn (database/sql retries outside a tx)", "full": "SQLITE_FULL", "ctx": "context.Canceled"},
     "assumptions": ["ops run to completion one at a time (conformance loop, not a concurrency test)", "model R2 (sim/sys.go) is the specification of the multiset store"],
@@ -257,10 +257,10 @@ PROPS["C09"] = {
              "every subject within (effective depth - 1) hops is in the tree and nothing unreachable is; with depth not binding the subject-id leaves equal the subjects for which the reference AND the real check engine say allowed, and REST / gRPC expand equal the engine tree. "
              "mode 'faults': after every fault-free expansion the same expansion is repeated on the same stored state with the k-th storage call failing (every k when the expansion makes <= 6 calls, else 6 sampled; transient, persistent, serialization-conflict or context cancellation): a tree that is returned without an error must equal the fault-free tree. "
              "This is the thinnest simulation target of the claimed set: the randomness sources are the storage order and the fault position; no concurrency. non-trivial = some subject is >= 2 hops away; distinct = hash of (tuples, set, depths)."),
-    "probes": ["probe_depth_binding", "probe_depth_not_binding", "probe_tree_depends_on_storage_order", "probe_over_100_children", "fault_surfaced_as_error"],
+    "probes": ["probe_depth_binding", "probe_depth_not_binding", "probe_tree_depends_on_storage_order", "probe_over_100_children", "fault_surfaced_as_error", "deadline_surfaced_as_error", "deadline_met_same_tree"],
     "probe_min_runs": 4000,
     "real": ["keto internal/expand.Engine (sequential), internal/x/graph visited set, expand REST/gRPC handlers, Mapper.ToTree, internal/persistence/sql GetRelationTuples paging, SQLite"], "stub": STUB_E,
-    "fault_kinds": {"transient": "k-th storage call of the expansion returns an error", "persistent": "k-th and every later call fail", "conflict": "k-th call fails with sqlcon.ErrConcurrentUpdate (the retryable serialization failure)", "ctx": "request context cancelled at the k-th call"},
+    "fault_kinds": {"deadline": "every storage call takes 10 ms of simulated time and the request context expires inside the j-th call (or after the last one)", "transient": "k-th storage call of the expansion returns an error", "persistent": "k-th and every later call fail", "conflict": "k-th call fails with sqlcon.ErrConcurrentUpdate (the retryable serialization failure)", "ctx": "request context cancelled at the k-th call"},
     "assumptions": ["'within the effective depth' is read as: a subject k hops away must appear when k <= effective depth - 1 (the tree has at most 'effective depth' levels)"],
 }
 
